@@ -150,7 +150,7 @@ def append_tables(seed):
     """Tables with 0, 1, 2 data rows whose rows are all distinguishable and carry hostile text."""
     a = alphabet(seed)
     na = a[8]
-    pool = [('r0\x0b', '1\x0c\x1c'), (na + ',"\x85', 'l1\nl2'), ("q'" + '\t', ''), ('\r\x1d\x1e', None), (7, 2.5), ()]
+    pool = [('r0\x0b', '1\x0c\x1c'), (na + ',"\x85', 'l1\nl2'), ("q'\\" + '\t', ''), ('\r\x1d\x1e', None), (7, 2.5), ()]
     tabs = []
     for start in (0, 3):
         for n in (0, 1, 2):
@@ -289,18 +289,29 @@ FROM = {'csv': etl.fromcsv, 'tsv': etl.fromtsv, 'pickle': etl.frompickle}
 APPEND = {'csv': etl.appendcsv, 'tsv': etl.appendtsv, 'pickle': etl.appendpickle}
 
 
-def csv_case(fn, table, kind, enc, wh, hdr, dialect):
-    """None = holds; 'excluded'; or (signature, expected, observed)."""
+def _full_csvargs(fn, args):
+    full = dict(args)
+    full.setdefault('dialect', 'excel' if fn == 'csv' else 'excel-tab')
+    return full
+
+
+def csv_case(fn, table, kind, enc, wh, hdr, dialect, prior=None):
+    """None = holds; 'excluded'; or (signature, expected, observed).  With `prior` the SAME source object /
+    path is first written with to*(prior): the second to* must replace that content completely."""
     args = csvargs_of(dialect)
     written = ref.written_rows(table, wh)
     exp = ([tuple(hdr)] if hdr is not None else []) + ref.csv_rows(written)
     t = target(kind, 'rt.csv')
     try:
-        TO[fn](table, t.fresh(), encoding=enc, write_header=wh, **args)
+        sink = t.fresh()
+        if prior is not None:
+            if ref.stdlib_writer_refuses(list(prior), _full_csvargs(fn, args)):
+                return 'excluded'
+            TO[fn](prior, sink, encoding=enc, write_header=True, **args)
+            sink = t.again()
+        TO[fn](table, sink, encoding=enc, write_header=wh, **args)
     except csv.Error as e:
-        full = dict(args)
-        full.setdefault('dialect', 'excel' if fn == 'csv' else 'excel-tab')
-        if ref.stdlib_writer_refuses(written, full):
+        if ref.stdlib_writer_refuses(written, _full_csvargs(fn, args)):
             return 'excluded'
         return ('write raises csv.Error although csv.writer accepts the rows', exp, _exc(e))
     except Exception as e:
@@ -314,11 +325,15 @@ def csv_case(fn, table, kind, enc, wh, hdr, dialect):
     return None
 
 
-def pickle_case(table, kind, wh, protocol):
+def pickle_case(table, kind, wh, protocol, prior=None):
     exp = ref.norm_rows(ref.written_rows(table, wh))
     t = target(kind, 'rt.p')
     try:
-        etl.topickle(table, t.fresh(), protocol=protocol, write_header=wh)
+        sink = t.fresh()
+        if prior is not None:
+            etl.topickle(prior, sink, protocol=protocol)
+            sink = t.again()
+        etl.topickle(table, sink, protocol=protocol, write_header=wh)
         got = list(etl.frompickle(t.source()))
     except Exception as e:
         return ('raises %s' % type(e).__name__, exp, _exc(e))
@@ -327,7 +342,7 @@ def pickle_case(table, kind, wh, protocol):
     return None
 
 
-def json_case(table, kind, lines, ensure_ascii, hdrmode):
+def json_case(table, kind, lines, ensure_ascii, hdrmode, prior=None):
     flds = [str(x) for x in table[0]]
     header = {'none': None, 'same': list(flds), 'reversed': list(reversed(flds))}[hdrmode]
     exp = ref.json_table(table, header=header)
@@ -338,7 +353,11 @@ def json_case(table, kind, lines, ensure_ascii, hdrmode):
     if ensure_ascii is not None:
         kw['ensure_ascii'] = ensure_ascii
     try:
-        etl.tojson(table, t.fresh(), **kw)
+        sink = t.fresh()
+        if prior is not None:
+            etl.tojson(prior, sink, **kw)
+            sink = t.again()
+        etl.tojson(table, sink, **kw)
         rkw = {'lines': True} if lines else {}
         if header is not None:
             rkw['header'] = header
@@ -350,14 +369,18 @@ def json_case(table, kind, lines, ensure_ascii, hdrmode):
     return None
 
 
-def jsonarrays_case(table, kind, output_header, ensure_ascii):
+def jsonarrays_case(table, kind, output_header, ensure_ascii, prior=None):
     exp = ref.json_arrays(table, output_header)
     t = target(kind, 'rt.json')
     kw = {}
     if ensure_ascii is not None:
         kw['ensure_ascii'] = ensure_ascii
     try:
-        etl.tojsonarrays(table, t.fresh(), output_header=output_header, **kw)
+        sink = t.fresh()
+        if prior is not None:
+            etl.tojsonarrays(prior, sink, output_header=True, **kw)
+            sink = t.again()
+        etl.tojsonarrays(table, sink, output_header=output_header, **kw)
         got = ref.parse_json(t.content())
     except Exception as e:
         return ('raises %s' % type(e).__name__, exp, _exc(e))
@@ -366,8 +389,9 @@ def jsonarrays_case(table, kind, output_header, ensure_ascii):
     return None
 
 
-def append_case(fmt, tables, whs, kind, enc, dialect, protocol):
-    """to*(tables[0]) then append*(tables[1:]) on target A; to*(concatenation) on target B."""
+def append_case(fmt, tables, whs, kind, enc, dialect, protocol, prior=None):
+    """to*(tables[0]) then append*(tables[1:]) on target A; to*(concatenation) on target B.  With `prior`,
+    target A (the same source object / path) has been written with to*(prior) before."""
     cat = ref.concat_rows(tables[0], whs[0], list(zip(tables[1:], whs[1:])))
     if fmt == 'pickle':
         kw = {'protocol': protocol}
@@ -377,14 +401,21 @@ def append_case(fmt, tables, whs, kind, enc, dialect, protocol):
         kw = dict(csvargs_of(dialect), encoding=enc)
         rkw = dict(kw)
         exp = ref.csv_rows(cat)
+    if fmt != 'pickle':
+        # the exclusion is decided by the reference: csv.writer itself refuses these rows with these arguments
+        full = _full_csvargs(fmt, csvargs_of(dialect))
+        if ref.stdlib_writer_refuses(cat + (list(prior) if prior is not None else []), full):
+            return 'excluded'
     a, b = target(kind, 'app-a.' + fmt), target(kind, 'app-b.' + fmt)
     try:
-        TO[fmt](tables[0], a.fresh(), write_header=whs[0], **kw)
+        sink = a.fresh()
+        if prior is not None:
+            TO[fmt](prior, sink, write_header=True, **kw)
+            sink = a.again()
+        TO[fmt](tables[0], sink, write_header=whs[0], **kw)
         for t, wh in zip(tables[1:], whs[1:]):
             APPEND[fmt](t, a.again(), write_header=wh, **kw)
         TO[fmt](cat, b.fresh(), write_header=True, **kw)
-    except csv.Error:
-        return 'excluded'
     except Exception as e:
         return ('write raises %s' % type(e).__name__, None, _exc(e))
     ca, cb = a.content(), b.content()
@@ -402,21 +433,26 @@ def append_case(fmt, tables, whs, kind, enc, dialect, protocol):
 def replay(case):
     k = case['kind']
     tb = lambda t: tuple(tuple(r) if isinstance(r, tuple) else r for r in t)
+    prior = case.get('prior')
+    if prior is not None:
+        prior = tb(prior)
     if k == 'csv':
         hdr = case['hdr']
         r = csv_case(case['fn'], tb(case['table']), case['target'], case['enc'], case['wh'],
                      None if hdr is None else tuple(hdr),
-                     None if case['dialect'] is None else tuple(case['dialect']))
+                     None if case['dialect'] is None else tuple(case['dialect']), prior=prior)
     elif k == 'pickle':
-        r = pickle_case(tb(case['table']), case['target'], case['wh'], case['protocol'])
+        r = pickle_case(tb(case['table']), case['target'], case['wh'], case['protocol'], prior=prior)
     elif k == 'json':
-        r = json_case(tb(case['table']), case['target'], case['lines'], case['ensure_ascii'], case['hdrmode'])
+        r = json_case(tb(case['table']), case['target'], case['lines'], case['ensure_ascii'], case['hdrmode'],
+                      prior=prior)
     elif k == 'jsonarrays':
-        r = jsonarrays_case(tb(case['table']), case['target'], case['output_header'], case['ensure_ascii'])
+        r = jsonarrays_case(tb(case['table']), case['target'], case['output_header'], case['ensure_ascii'],
+                            prior=prior)
     elif k == 'append':
         r = append_case(case['fmt'], [tb(t) for t in case['tables']], list(case['whs']), case['target'],
                         case['enc'], None if case['dialect'] is None else tuple(case['dialect']),
-                        case['protocol'])
+                        case['protocol'], prior=prior)
     else:
         raise ValueError(k)
     if r is None or r == 'excluded':
@@ -499,7 +535,7 @@ def setup(tier, seed):
         'tier': tier, 'seed': seed, 'L': L, 'f': f,
         'S': S, 'S2': strings(seed, 2), 'A': alphabet(seed),
         'LB': boundary_strings(seed, L), 'LB2': boundary_strings(seed, 2),
-        'typed': typed_tables(seed), 'app': append_tables(seed),
+        'typed': typed_tables(seed), 'app': append_tables(seed), 'reuse': reuse_tables(seed),
         'pickle': pickle_tables(seed), 'json': json_tables(seed, 2 if tier == 'quick' else 3),
     })
 
@@ -558,6 +594,8 @@ def items(tier, seed):
         out += [('C', 'all', lo, hi) for lo, hi in _slices(len(_G['typed']), 20)]
     out += [('D', fmt, kind, i) for fmt in ('csv', 'tsv', 'pickle') for kind in KINDS
             for i in range(3 if tier == 'quick' else 6)]
+    out += [('DA', lo, hi) for lo, hi in _slices(len(_G['S2']), 8 if tier == 'quick' else 4)]
+    out += [('R', fmt, kind) for fmt in ('csv', 'tsv', 'pickle', 'json', 'jsonarrays') for kind in KINDS]
     out += [('E', lo, hi) for lo, hi in _slices(len(_G['pickle']), 150 if tier == 'quick' else 100)]
     out += [('F', lo, hi) for lo, hi in _slices(len(_G['json']), 120 if tier == 'quick' else 200)]
     out += [('G', lo, hi) for lo, hi in _slices(len(_G['json']), 400 if tier == 'quick' else 800)]
@@ -571,7 +609,7 @@ def cost(item):
         return {'dialects': 3, 'env': 4, 'envlite': 6, 'full': 9}[item[1]]
     if p == 'B':
         return 8 if item[3] == 'all' else 2
-    return {'C': 5, 'D': 2, 'E': 3, 'F': 3, 'G': 1}[p]
+    return {'C': 5, 'D': 2, 'DA': 3, 'R': 2, 'E': 3, 'F': 3, 'G': 1}[p]
 
 
 def _cfgs_A(name):
@@ -688,6 +726,10 @@ def run_item(item, acc):
         acc.sample({'part': 'C', 'table': _G['typed'][lo], 'configurations': len(cfgs)}, 1)
     elif p == 'D':
         _run_append(acc, item[1], item[2], item[3])
+    elif p == 'DA':
+        _run_append_dialects(acc, item[1], item[2])
+    elif p == 'R':
+        _run_reuse(acc, item[1], item[2])
     elif p == 'E':
         _run_pickle(acc, item[1], item[2])
     elif p == 'F':
@@ -698,7 +740,47 @@ def run_item(item, acc):
         raise ValueError(item)
 
 
+def _do_append(acc, fmt, seq, whs, kind, enc, d, pr, prior=None):
+    """One to* (+ append*) sequence on one target; counts, excludes, records."""
+    k = len(seq) - 1
+    cat = ref.concat_rows(seq[0], whs[0], list(zip(seq[1:], whs[1:])))
+    nappended = len(cat) - len(ref.written_rows(seq[0], whs[0]))
+    if fmt != 'pickle':
+        rows = cat + (list(prior) if prior is not None else [])
+        if not ref.encodable(rows, enc):
+            acc.counters['excluded:not encodable'] += 1
+            return
+        if d is not None and d[2] == QNN and ref.has_numeric(rows):
+            acc.counters['excluded:numeric cell under QUOTE_NONNUMERIC'] += 1
+            return
+    acc.states += 1
+    acc.transitions += k + 3 + (1 if prior is not None else 0)
+    r = append_case(fmt, list(seq), list(whs), kind, enc, d, pr, prior=prior)
+    if r == 'excluded':
+        acc.counters['excluded:csv.writer raises csv.Error'] += 1
+        return
+    acc.evals += 1
+    acc.counters['op:%sto%s+append%s x%d %s' % ('reused target: ' if prior is not None else '', fmt, fmt, k, kind)] += 1
+    if nappended or prior is not None:
+        acc.nontrivial += 1
+    acc.outcome(('D', len(cat), nappended, k, prior is not None))
+    if r is not None:
+        sig, exp, obs = r
+        case = {'kind': 'append', 'fmt': fmt, 'tables': list(seq), 'whs': list(whs), 'target': kind,
+                'enc': enc, 'dialect': d, 'protocol': pr}
+        what = 'append (to* + append*)'
+        if prior is not None:
+            case['prior'] = prior
+            what = 'target reuse (to*, to* [+ append*] on one target)'
+        acc.violation('%s %s on %s | %s' % ('pickle' if fmt == 'pickle' else 'csv', what, _where(kind, enc), sig),
+                      case, exp, obs,
+                      '%sto%s then %d x append%s (write_header flags %r) on a %s target, encoding=%r, %r'
+                      % ('to%s(%r) on the same target, then ' % (fmt, prior) if prior is not None else '',
+                         fmt, k, fmt, tuple(whs), kind, enc, csvargs_of(d) if fmt != 'pickle' else {'protocol': pr}))
+
+
 def _run_append(acc, fmt, kind, first):
+    """Part D: every sequence to* + 0..2 append* over the base tables x write_header flags x codecs/dialects."""
     tabs = _G['app']
     thorough = _G['tier'] != 'quick'
     if fmt == 'pickle':
@@ -706,42 +788,86 @@ def _run_append(acc, fmt, kind, first):
     else:
         dialects = [None, (';', "'", QA)] + ([('|', '"', QM), (',', '"', QNN)] if thorough else [])
         axes = [(enc, d, None) for d in dialects for enc in APPEND_ENCS]
-    firsts = [tabs[first]]
+        if fmt == 'csv':      # every explicit dialect (utf-8); the tsv functions only add a default on top
+            axes += [('utf-8', d, None) for d in DIALECTS if d not in dialects]
     later = tabs if thorough else tabs[3:]
-    seqs = [(t0,) + rest for k in range(0, 3) for t0 in firsts for rest in itertools.product(later, repeat=k)]
+    seqs = [(tabs[first],) + rest for k in range(0, 3) for rest in itertools.product(later, repeat=k)]
     for seq in seqs:
-        k = len(seq) - 1
-        for whs in itertools.product((True, False), repeat=k + 1):
-            cat = ref.concat_rows(seq[0], whs[0], list(zip(seq[1:], whs[1:])))
-            nappended = len(cat) - len(ref.written_rows(seq[0], whs[0]))
+        for whs in itertools.product((True, False), repeat=len(seq)):
             for enc, d, pr in axes:
-                if fmt != 'pickle':
-                    if not ref.encodable(cat, enc):
-                        acc.counters['excluded:not encodable'] += 1
-                        continue
-                    if d is not None and d[2] == QNN and ref.has_numeric(cat):
-                        acc.counters['excluded:numeric cell under QUOTE_NONNUMERIC'] += 1
-                        continue
+                _do_append(acc, fmt, seq, whs, kind, enc, d, pr)
+    acc.sample({'part': 'D', 'format': fmt, 'target': kind, 'sequences': len(seqs)}, 1)
+
+
+def _run_append_dialects(acc, lo, hi):
+    """Part DA: hostile cell text in the written and in the appended table x every csv call form."""
+    f = _G['f']
+    thorough = _G['tier'] != 'quick'
+    for s in _G['S2'][lo:hi]:
+        t0 = ((f, 'k'), (s, f))
+        t1 = ((f, 'k'), (f, s))
+        for fn, d in FORMS:
+            for kind in (KINDS if thorough else ('mem', 'gz')):
+                for whs in ((True, False), (True, True), (False, False)):
+                    _do_append(acc, fn, (t0, t1), whs, kind, 'utf-8', d, None)
+    acc.sample({'part': 'DA', 'tables': [((f, 'k'), (_G['S2'][lo], f)), ((f, 'k'), (f, _G['S2'][lo]))],
+                'call_forms': len(FORMS)}, 1)
+
+
+def reuse_tables(seed):
+    """Tables whose renderings have clearly different lengths (the second to* is longer / equal / shorter)."""
+    a = alphabet(seed)
+    f = filler(seed)
+    hdr = (f, 'k')
+    return [(hdr,), (hdr, ('u1', a[8] + ' "q"')), (hdr, ('v1', 'v2'), ('v3', 'line\nbreak')),
+            (hdr, ('w1', 'a much longer cell text ' * 3), ('w2', ''), ('w3', 'w4'), ('w5', 'w6'))]
+
+
+def _run_reuse(acc, fmt, kind):
+    """Part R: the same source object / path written by to* twice (first longer, equal, shorter), then read
+    back, and then appended to: the second to* must replace the first completely."""
+    U = _G['reuse']
+    pairs = [(p, t) for p in U for t in U]
+    if fmt in ('csv', 'tsv'):
+        dialects = [None] if fmt == 'tsv' else [None, (';', "'", QA), ('|', '"', QN)]
+        for prior, table in pairs:
+            for d in dialects:
+                for enc in ('utf-8', 'utf-16', None):
+                    for wh in (True, False):
+                        _do_append(acc, fmt, (table,), (wh,), kind, enc, d, None, prior=prior)
+                        for t3 in U[1:3]:
+                            _do_append(acc, fmt, (table, t3), (wh, False), kind, enc, d, None, prior=prior)
+    elif fmt == 'pickle':
+        for prior, table in pairs:
+            for pr in PROTOCOLS:
+                for wh in (True, False):
+                    _do_append(acc, fmt, (table,), (wh,), kind, None, None, pr, prior=prior)
+                    for t3 in U[1:3]:
+                        _do_append(acc, fmt, (table, t3), (wh, False), kind, None, None, pr, prior=prior)
+    else:
+        for prior, table in pairs:
+            if len(table) < 2 or len(prior) < 2:
+                continue          # json: at least one data row
+            for flag in (False, True):
                 acc.states += 1
-                acc.transitions += k + 3
-                r = append_case(fmt, list(seq), list(whs), kind, enc, d, pr)
-                if r == 'excluded':
-                    acc.counters['excluded:csv.writer raises csv.Error'] += 1
-                    continue
+                acc.transitions += 3
                 acc.evals += 1
-                acc.counters['op:to%s+append%s x%d %s' % (fmt, fmt, k, kind)] += 1
-                if nappended:
-                    acc.nontrivial += 1
-                acc.outcome(('D', len(cat), nappended, k))
+                acc.nontrivial += 1
+                acc.counters['op:reused target: to%s %s' % (fmt, kind)] += 1
+                if fmt == 'json':
+                    r = json_case(table, kind, flag, None, 'none', prior=prior)
+                    case = {'kind': 'json', 'table': table, 'target': kind, 'lines': flag, 'ensure_ascii': None,
+                            'hdrmode': 'none', 'prior': prior}
+                else:
+                    r = jsonarrays_case(table, kind, flag, None, prior=prior)
+                    case = {'kind': 'jsonarrays', 'table': table, 'target': kind, 'output_header': flag,
+                            'ensure_ascii': None, 'prior': prior}
+                acc.outcome(('R', fmt, len(prior), len(table)))
                 if r is not None:
                     sig, exp, obs = r
-                    case = {'kind': 'append', 'fmt': fmt, 'tables': list(seq), 'whs': list(whs), 'target': kind,
-                            'enc': enc, 'dialect': d, 'protocol': pr}
-                    acc.violation('%s append (to* + append*) on %s | %s'
-                                  % ('pickle' if fmt == 'pickle' else 'csv', _where(kind, enc), sig), case, exp, obs,
-                                  'to%s then %d x append%s (write_header flags %r) on a %s target, encoding=%r, %r'
-                                  % (fmt, k, fmt, whs, kind, enc, csvargs_of(d) if fmt != 'pickle' else {'protocol': pr}))
-    acc.sample({'part': 'D', 'format': fmt, 'target': kind, 'sequences': len(seqs)}, 1)
+                    acc.violation('%s target reuse (to*, to* on one target) on %s | %s' % (fmt, _where(kind), sig),
+                                  case, exp, obs, 'to%s(%r) then to%s(%r) on the same %s target (flag %r)'
+                                  % (fmt, prior, fmt, table, kind, flag))
 
 
 def _nonstr_or_ragged(table):
